@@ -14,6 +14,7 @@ import (
 	"bytes"
 	"crypto/tls"
 	"encoding/binary"
+	"encoding/hex"
 	"errors"
 	"fmt"
 	"os"
@@ -99,6 +100,16 @@ func c04Variants() []c04Variant {
 	return out
 }
 
+// length of the connection IDs on tls12_cid records of this variant: the record parser needs it, a
+// tls12_cid header does not say how long its connection ID is
+func (v c04Variant) cidLen() int {
+	if v.CID {
+		return c04CIDLen
+	}
+
+	return 0
+}
+
 func (v c04Variant) kx() types.KeyExchangeAlgorithm {
 	switch v.Suite {
 	case "psk":
@@ -134,7 +145,7 @@ func (v c04Variant) configs(cs, ss *c04Store) (*dtlsConfig, *dtlsConfig) {
 		k.SupportedProtocols = []string{"verif-a", "verif-b"}
 		k.SRTPProtectionProfiles = []SRTPProtectionProfile{SRTP_AES128_CM_HMAC_SHA1_80, SRTP_AEAD_AES_128_GCM}
 		if v.CID {
-			k.ConnectionIDGenerator = RandomCIDGenerator(4)
+			k.ConnectionIDGenerator = c04CIDGenerator(v.Name, k == c)
 		}
 		if !v.EMS {
 			k.ExtendedMasterSecret = DisableExtendedMasterSecret
@@ -163,6 +174,31 @@ func (v c04Variant) configs(cs, ss *c04Store) (*dtlsConfig, *dtlsConfig) {
 
 	return c, s
 }
+
+// c04CIDGenerator: connection IDs are a function of VERIF_SEED, the variant and the side (reproducible runs);
+// C04_CID=<8 hex digits> forces the value (bisecting value-dependent behaviour).
+func c04CIDGenerator(variant string, client bool) func() []byte {
+	seed := vSeed() ^ 0xc04c1d
+	for _, ch := range variant {
+		seed = seed*1099511628211 + uint64(ch)
+	}
+	if client {
+		seed ^= 0x5555
+	}
+	rng := newVRand(seed)
+
+	return func() []byte {
+		if h := os.Getenv("C04_CID"); len(h) == 8 {
+			if b, err := hex.DecodeString(h); err == nil {
+				return b
+			}
+		}
+
+		return rng.bytes(c04CIDLen)
+	}
+}
+
+const c04CIDLen = 4
 
 // ---- mutations
 
@@ -753,7 +789,7 @@ func c04Rewrite(obs *c04Obs, v c04Variant, mut *c04Mut, d vDatagram) []byte {
 		return d.Data
 	}
 	var out []byte
-	for _, r := range vParseDatagram(d.Data, 0) {
+	for _, r := range vParseDatagram(d.Data, v.cidLen()) {
 		if r.CT != int(protocol.ContentTypeHandshake) || r.Epoch != 0 || r.Uni || r.HType != int(mut.HType) {
 			out = append(out, r.Raw...)
 
@@ -857,12 +893,12 @@ func c04LocalAlert(me, peer *vPeer, wire []c03WireAlert) int {
 // c04Pieces: delivery schedule "split" = one datagram per record, in order, each followed by a run to
 // quiescence, so that the receiving state machine parses after every single record (a flight that spans
 // several datagrams: the parser of a flight is re-entered with a partial flight)
-func c04Pieces(data []byte, split bool) [][]byte {
+func c04Pieces(data []byte, split bool, cidLen int) [][]byte {
 	if !split {
 		return [][]byte{data}
 	}
 	var out [][]byte
-	for _, r := range vParseDatagram(data, 0) {
+	for _, r := range vParseDatagram(data, cidLen) {
 		out = append(out, r.Raw)
 	}
 
@@ -883,7 +919,7 @@ func c04Pump(lab *vLab, obs *c04Obs, v c04Variant, mut *c04Mut, next *int, done 
 			}
 			obs.Delivered++
 			if data := c04Rewrite(obs, v, mut, d); len(data) > 0 {
-				for _, piece := range c04Pieces(data, obs.Sched == "split") {
+				for _, piece := range c04Pieces(data, obs.Sched == "split", v.cidLen()) {
 					if len(piece) == 0 {
 						continue
 					}
@@ -951,7 +987,7 @@ func runC04(t *testing.T, v c04Variant, mut *c04Mut, sched ...string) c04Obs {
 			}
 			for _, d := range all {
 				line := fmt.Sprintf("%d %s %dms len=%d:", d.Idx, d.From, d.T.Milliseconds(), len(d.Data))
-				for _, r := range vParseDatagram(d.Data, 0) {
+				for _, r := range vParseDatagram(d.Data, v.cidLen()) {
 					line += fmt.Sprintf(" [ct=%d e=%d ht=%d ms=%d uni=%v]", r.CT, r.Epoch, r.HType, r.MsgSeq, r.Uni)
 				}
 				fmt.Println(line)
@@ -962,7 +998,7 @@ func runC04(t *testing.T, v c04Variant, mut *c04Mut, sched ...string) c04Obs {
 		}
 	}
 	for _, d := range lab.Net.since(0) {
-		for _, r := range vParseDatagram(d.Data, 0) {
+		for _, r := range vParseDatagram(d.Data, v.cidLen()) {
 			if r.CT == int(protocol.ContentTypeAlert) && r.Epoch == 0 && !r.Uni && len(r.Raw) >= 15 {
 				obs.Wire = append(obs.Wire, c03WireAlert{From: d.From, Level: int(r.Raw[13]), Desc: int(r.Raw[14])})
 			}
